@@ -16,6 +16,12 @@
 //! `Duration::MAX` / `u64::MAX/2` seconds (the spec's NoTimeout): every accepted request must be
 //! answered by the client's own response, also after days of virtual time; a manager task that
 //! dies with accepted requests outstanding is reported (`Anomaly`, requests never answered).
+//! CONSTRUCTOR (`ctor: "new" | "init"`): "init" builds the manager through the public
+//! `ExecutionManager::init` (account stream + account snapshot from the client, merged account
+//! stream with reconnect policy); the first item of the merged stream must be the indexed account
+//! snapshot, every other item is treated exactly like an item of the response channel.
+//! BOUNDARY TIMEOUTS: `T` may be 0 (a request whose client response is not ready at the first poll
+//! times out at once) or 1 ms.
 //! STALL scenarios (`stall: [from, to]`): at virtual instant `from`, after the requests of that
 //! instant have been handed over and the manager has taken them, the clock is moved to `to` in ONE
 //! jump (`tokio::time::advance`) - the manager task is not polled in between, so every timer that
@@ -51,7 +57,9 @@ use barter_instrument::{
     index::IndexedInstruments,
     instrument::{Instrument, InstrumentIndex, name::InstrumentNameExchange},
 };
+use barter_data::streams::reconnect::stream::ReconnectionBackoffPolicy;
 use barter_integration::channel::mpsc_unbounded;
+use futures::{FutureExt, Stream, StreamExt};
 use chrono::{DateTime, Utc};
 use rand::Rng;
 use serde_json::{Value, json};
@@ -93,6 +101,8 @@ struct Scenario {
     t: u64,
     /// "finite" | "max" (Duration::MAX) | "huge" (u64::MAX / 2 seconds): the spec's NoTimeout
     tmode: String,
+    /// "new" (ExecutionManager::new) | "init" (ExecutionManager::init)
+    ctor: String,
     shut: Option<u64>,
     /// (from, to): one clock jump during which the manager is not scheduled
     stall: Option<(u64, u64)>,
@@ -104,6 +114,7 @@ fn scenario_of(v: &Value) -> Scenario {
     Scenario {
         t: i(v, "T") as u64,
         tmode: v.get("tmode").and_then(|x| x.as_str()).unwrap_or("finite").to_string(),
+        ctor: v.get("ctor").and_then(|x| x.as_str()).unwrap_or("new").to_string(),
         shut: (shut >= 0).then_some(shut as u64),
         stall: v.get("stall").and_then(|x| x.as_array()).filter(|a| a.len() == 2).map(|a| {
             (a[0].as_u64().unwrap_or_else(|| usage("stall")), a[1].as_u64().unwrap_or_else(|| usage("stall")))
@@ -133,6 +144,7 @@ fn scenario_json(scn: &Scenario) -> Value {
     json!({
         "T": scn.t,
         "tmode": scn.tmode,
+        "ctor": scn.ctor,
         "shut": scn.shut.map(|x| x as i64).unwrap_or(-1),
         "stall": scn.stall.map(|(a, b)| json!([a, b])).unwrap_or(json!([])),
         "reqs": scn.reqs.iter().map(|r| json!({
@@ -268,7 +280,7 @@ fn anomaly(n: usize, at: u64, what: String) -> Value {
 
 fn accept_line(n: usize, at: u64, r: &Req) -> Value {
     let mut l = blank("Accept", n, at);
-    let s = scenario_json(&Scenario { t: 0, tmode: "finite".into(), shut: None, stall: None, reqs: vec![r.clone()] });
+    let s = scenario_json(&Scenario { t: 0, tmode: "finite".into(), ctor: "new".into(), shut: None, stall: None, reqs: vec![r.clone()] });
     for (k, v) in s["reqs"][0].as_object().unwrap() {
         l[k] = v.clone();
     }
@@ -383,7 +395,7 @@ impl ExecutionClient for ScriptedClient {
         _: &[AssetNameExchange],
         _: &[InstrumentNameExchange],
     ) -> Result<UnindexedAccountSnapshot, UnindexedClientError> {
-        Err(UnindexedClientError::AccountSnapshot("not scripted".into()))
+        Ok(UnindexedAccountSnapshot { exchange: EXCHANGE, balances: vec![], instruments: vec![] })
     }
 
     async fn account_stream(
@@ -483,6 +495,8 @@ struct Stats {
     max_outstanding: usize,
     anomalies: usize,
     stalls: usize,
+    built_with_init: usize,
+    snapshots_first: usize,
     never_answered: usize,
     no_timeout_scenarios: usize,
     late_responses: usize,
@@ -498,14 +512,37 @@ async fn run_scenario(n: usize, scn: &Scenario, out: &mut Out, st: &mut Stats) {
         client.scripts.lock().unwrap().insert(format!("c{}", r.id), r.clone());
     }
     let (req_tx, req_rx) = mpsc_unbounded::<ExecutionRequest>();
-    let (resp_tx, mut resp_rx) = mpsc_unbounded::<AccountStreamEvent>();
-    let manager = ExecutionManager::new(
-        req_rx.into_stream(),
-        scn.timeout(),
-        resp_tx,
-        Arc::new(client),
-        AccountEventIndexer::new(Arc::new(map)),
-    );
+    let indexer = AccountEventIndexer::new(Arc::new(map));
+    let mut snapshot_due = false;
+    let (manager, mut events): (_, std::pin::Pin<Box<dyn Stream<Item = AccountStreamEvent> + Send>>) = match scn.ctor.as_str() {
+        "new" => {
+            let (resp_tx, resp_rx) = mpsc_unbounded::<AccountStreamEvent>();
+            let manager = ExecutionManager::new(req_rx.into_stream(), scn.timeout(), resp_tx, Arc::new(client), indexer);
+            (manager, resp_rx.into_stream().boxed())
+        }
+        "init" => {
+            st.built_with_init += 1;
+            snapshot_due = true;
+            match ExecutionManager::init(
+                req_rx.into_stream(),
+                scn.timeout(),
+                Arc::new(client),
+                indexer,
+                ReconnectionBackoffPolicy { backoff_ms_initial: 10, backoff_multiplier: 2, backoff_ms_max: 1000 },
+            )
+            .await
+            {
+                Ok((manager, stream)) => (manager, stream.boxed()),
+                Err(e) => {
+                    st.anomalies += 1;
+                    out.line(&blank("Reset", n, 0));
+                    out.line(&anomaly(n, 0, format!("ExecutionManager::init failed: {e:?}")));
+                    return;
+                }
+            }
+        }
+        _ => usage("ctor: new | init"),
+    };
 
     let t0 = Instant::now();
     let stamp = |out: &mut Out, st: &mut Stats| -> u64 {
@@ -546,7 +583,17 @@ async fn run_scenario(n: usize, scn: &Scenario, out: &mut Out, st: &mut Stats) {
         };
         tokio::select! {
             biased;
-            event = resp_rx.rx.recv(), if !closed => match event {
+            event = events.next(), if !closed => match event {
+                Some(AccountStreamEvent::Item(ev)) if snapshot_due && matches!(ev.kind, AccountEventKind::Snapshot(_)) => {
+                    // ExecutionManager::init: the first item of the account stream is the snapshot
+                    snapshot_due = false;
+                    st.snapshots_first += 1;
+                    if ev.exchange != ExchangeIndex(0) {
+                        st.anomalies += 1;
+                        let at = stamp(out, st);
+                        out.line(&anomaly(n, at, format!("account snapshot for exchange {:?}", ev.exchange)));
+                    }
+                }
                 Some(event) => {
                     let at = stamp(out, st);
                     let line = emit_line(n, at, &event);
@@ -627,7 +674,14 @@ async fn run_scenario(n: usize, scn: &Scenario, out: &mut Out, st: &mut Stats) {
                     for _ in 0..4 {
                         tokio::task::yield_now().await;
                     }
-                    while let Ok(event) = resp_rx.rx.try_recv() {
+                    while let Some(Some(event)) = events.next().now_or_never() {
+                        if let AccountStreamEvent::Item(ev) = &event {
+                            if snapshot_due && matches!(ev.kind, AccountEventKind::Snapshot(_)) {
+                                snapshot_due = false;
+                                st.snapshots_first += 1;
+                                continue;
+                            }
+                        }
                         let line = emit_line(n, at, &event);
                         if line["a"] == "Anomaly" { st.anomalies += 1 } else {
                             outstanding.remove(&line["id"].as_i64().unwrap());
@@ -648,6 +702,10 @@ async fn run_scenario(n: usize, scn: &Scenario, out: &mut Out, st: &mut Stats) {
                 }
                 if at >= end {
                     ended = true;
+                    if snapshot_due {
+                        st.anomalies += 1;
+                        out.line(&anomaly(n, at, "ExecutionManager::init: no account snapshot on the account stream".into()));
+                    }
                     out.line(&blank("End", n, at));
                     if !shutdown_sent {
                         shutdown_sent = true;
@@ -663,10 +721,12 @@ async fn run_scenario(n: usize, scn: &Scenario, out: &mut Out, st: &mut Stats) {
 // ------------------------------------------------------------------------------------------------
 // random batches
 // ------------------------------------------------------------------------------------------------
-fn random_scenario(rng: &mut impl Rng, t: u64, max: usize, no_stall: bool, tmode: &str) -> Scenario {
-    let n = if rng.random_bool(0.5) { max } else { rng.random_range(1..=max) };
+/// `full`: the batch has `max` requests arriving inside a short window and is not shut down (the
+/// first batch of every run, so that every run reaches a large number of outstanding requests)
+fn random_scenario(rng: &mut impl Rng, t: u64, max: usize, no_stall: bool, tmode: &str, full: bool) -> Scenario {
+    let n = if rng.random_bool(0.5) || full { max } else { rng.random_range(1..=max) };
     // arrivals inside a window shorter than the timeout: everything can be outstanding at once
-    let window = if rng.random_bool(0.7) { t * 6 / 10 } else { t * 3 };
+    let window = if rng.random_bool(0.7) || full { t * 6 / 10 } else { t * 3 };
     let grid = *[1u64, 1, 5, 10].get(rng.random_range(0..4)).unwrap();
     let mut reqs = Vec::new();
     for id in 1..=n as i64 {
@@ -696,7 +756,7 @@ fn random_scenario(rng: &mut impl Rng, t: u64, max: usize, no_stall: bool, tmode
             fill: if open && ok && d.is_some() { *[0, qty, rng.random_range(0..=qty)].get(rng.random_range(0..3)).unwrap() } else { 0 },
         });
     }
-    let shut = rng.random_bool(0.2).then(|| rng.random_range(0..=window + 2 * t));
+    let shut = (rng.random_bool(0.2) && !full).then(|| rng.random_range(0..=window + 2 * t));
     // a stall: after the last arrival one jump over (most of) the due instants
     let stall = (!no_stall && rng.random_bool(0.5)).then(|| {
         let from = reqs.iter().map(|r| r.at).max().unwrap_or(0);
@@ -712,7 +772,8 @@ fn random_scenario(rng: &mut impl Rng, t: u64, max: usize, no_stall: bool, tmode
             }
         }
     }
-    Scenario { t, tmode: tmode.to_string(), shut, stall, reqs }
+    let ctor = if rng.random_bool(0.5) { "new" } else { "init" }.to_string();
+    Scenario { t, tmode: tmode.to_string(), ctor, shut, stall, reqs }
 }
 
 #[tokio::main(flavor = "current_thread", start_paused = true)]
@@ -734,7 +795,7 @@ async fn main() {
             let max = args.usize("max", 200);
             let mut scn_out = Out::create(args.req("scn-out"));
             for n in 0..args.usize("batches", 10) {
-                let scn = random_scenario(&mut rng, t, max, args.get("stalls") == Some("off"), &args.str("tmode", "finite"));
+                let scn = random_scenario(&mut rng, t, max, args.get("stalls") == Some("off"), &args.str("tmode", "finite"), n == 0);
                 scn_out.line(&scenario_json(&scn));
                 run_scenario(n, &scn, &mut out, &mut st).await;
             }
@@ -752,6 +813,7 @@ async fn main() {
                "scripted_shutdowns": st.shutdowns_scripted, "requests_dropped_by_shutdown": st.dropped_by_shutdown,
                "max_outstanding": st.max_outstanding, "anomalies": st.anomalies,
                "stalls": st.stalls, "requests_due_inside_a_stall": st.stalled_over,
+               "built_with_init": st.built_with_init, "init_snapshot_forwarded_first": st.snapshots_first,
                "no_timeout_scenarios": st.no_timeout_scenarios, "no_timeout_responses_after_long_delay": st.late_responses,
                "accepted_requests_never_answered_because_manager_died": st.never_answered})
     );
